@@ -89,10 +89,12 @@ func init() {
 		// the same exchange on long-lived objects that earlier operations used with OTHER keys: a peer-key object
 		// overwritten in place and a private-key object whose scalar is Set in place.  The secret depends on
 		// the values only, never on object identity or on what was computed before.
+		historyMu.Lock()
 		reusePeer = *pub
 		reusePriv.Key.Set(&priv.Key)
 		viaFn := secp.GenerateSharedSecret(reusePriv, &reusePeer)
 		viaMethod, err := reusePriv.ECDH(&reusePeer)
+		historyMu.Unlock()
 		again := secp.GenerateSharedSecret(priv, pub)
 		if err != nil || !bytes.Equal(fresh, viaFn) || !bytes.Equal(fresh, viaMethod) || !bytes.Equal(fresh, again) {
 			return "DEPENDS-ON-OBJECT-HISTORY fresh=" + hx(fresh) + " reused=" + hx(viaFn) + " method=" + hx(viaMethod)
